@@ -31,6 +31,12 @@ CapInf == 1073741824
 CrcAfterStart == CrcFeed(CrcInit, StartSeq)
 ZeroPl == <<0, 0, 0, 0>>
 
+\* re-alignment test of decode.rs:343-360.  RealignStrict is a definition (not a CONSTANT) so that a model-checking config
+\* can override it (`RealignStrict <- RealignLoose`): the loose variant - only the end marker at the aligned offset is
+\* looked at, not the 1-3 bytes in front of it (seeded change S14-C02) - must violate Sound (negative control)
+RealignStrict == TRUE
+RealignOK(pl, bua) == bua > 0 /\ (RealignStrict => \A j \in 1..bua : pl[j] = 27) /\ pl[bua + 1] = 26
+
 InitDec(cap) ==
   [st |-> "look", ninit |-> 0, ndisc |-> 0, raw |-> 0, zc |-> 0, buf |-> <<>>,
    crc |-> CrcInit, n |-> 0, step |-> 0, pl |-> ZeroPl, cap |-> cap]
@@ -102,7 +108,7 @@ Arm(d, b) ==
               IN IF pl = EscSeq THEN "EscLiteral"
                  ELSE IF pl = <<1, 1, 1, 1>> THEN "EscRestart"
                  ELSE IF pl[1] = 26 THEN "EscEnd"
-                 ELSE IF bua > 0 /\ (\A j \in 1..bua : pl[j] = 27) /\ pl[bua + 1] = 26
+                 ELSE IF RealignOK(pl, bua)
                       THEN "EscRealign" ELSE "EscInvalid"
     [] OTHER -> "Done"
 
@@ -171,9 +177,10 @@ EscPayloadStep(d, b) ==
         out |-> Disc(d.raw - 8)]
   ELSE IF pl[1] = 26 THEN EndSeqStep(d, pl)
   ELSE LET bua == Bua(d.raw) IN
-       IF bua > 0 /\ (\A j \in 1..bua : pl[j] = 27) /\ pl[bua + 1] = 26
-       THEN \* re-alignment: 1-3 trailing 0x1b of the payload were read as escape
-            LET dc == [d EXCEPT !.crc = CrcFeed(@, Rep(27, bua))]
+       IF RealignOK(pl, bua)
+       THEN \* re-alignment: 1-3 trailing 0x1b of the payload were read as escape; the checksum runs over the bytes
+            \* as received (= Rep(27, bua) under RealignStrict), 0x1b bytes are stored
+            LET dc == [d EXCEPT !.crc = CrcFeed(@, SubSeq(pl, 1, bua))]
                 r  == PushMany(dc, Rep(27, bua), 1)
             IN IF r.oom THEN [d |-> r.d, out |-> OOM]
                ELSE [d |-> [r.d EXCEPT !.step = 4 - bua,
